@@ -217,6 +217,61 @@ def check_real(acc, np, hier, dtw, series, use_c):
         acc.violation('real', 'Hierarchical.fit', 'c' if use_c else 'py', {'what': 'real', 'n': n}, {'series': series, 'use_c': use_c}, 'valid clustering', why)
 
 
+def check_real_history(acc, np, hier, dtw, series, use_c, m1, m2):
+    """Histories on one model with the real distance function: fit with max_dist m1, change max_dist to m2, fit again;
+    then wrap the same model in HierarchicalTree.  Every fit must satisfy C15 for the max_dist in force."""
+    n = len(series)
+    T = [[inf] * n for _ in range(n)]
+    for r in range(n):
+        for c in range(r + 1, n):
+            T[r][c] = T[c][r] = oracles.dtw_ref(series[r], series[c])
+    data = [np.array(s, dtype=float) for s in series]
+    state = {'live': set(range(n)), 'problems': [], 'last': -inf, 'md': m1}
+
+    def hook(from_idx, to_idx, dist):
+        i1, i2 = to_idx, from_idx
+        live = state['live']
+        cur_min = min([T[p][q] for p in live for q in live if p < q] or [inf])
+        if i1 not in live or i2 not in live:
+            state['problems'].append('merge of non-live prototypes %d <- %d' % (i1, i2))
+        elif not core.ulp_close(float(dist), cur_min, 4):
+            state['problems'].append('merge (%d <- %d) at %r, current minimum over live prototypes %r' % (i1, i2, float(dist), cur_min))
+        if float(dist) > state['md'] * (1 + 1e-12):
+            state['problems'].append('merge at %r above max_dist %r' % (float(dist), state['md']))
+        if float(dist) < state['last']:
+            state['problems'].append('merge distances decrease')
+        state['last'] = float(dist)
+        live.discard(i2)
+
+    model = hier.Hierarchical(dtw.distance_matrix, {'use_c': use_c}, max_dist=m1, merge_hook=hook, show_progress=False)
+    case = {'series': series, 'use_c': use_c, 'max_dist_sequence': [m1, m2]}
+    for step, md in enumerate((m1, m2)):
+        state.update(live=set(range(n)), problems=[], last=-inf, md=md)
+        model.max_dist = md
+        res = core.call(model.fit, data)
+        acc.trans()
+        acc.valid()
+        # a max_dist that coincides with a pair distance is judged with the tie resolved either way only if it is not exactly representable
+        why = repr(res) if isinstance(res, core.Exc) else (state['problems'][0] if state['problems'] else judge_clusters(res, n, T, md, state['live']))
+        if why:
+            acc.violation('real_history', 'Hierarchical.fit', 'c' if use_c else 'py', {'what': 'real_history', 'n': n, 'step': step, 'max_dist_finite': md != inf},
+                          dict(case, step=step), 'valid clustering for the max_dist in force', why)
+            return
+    # the tree wrapper resets max_dist to infinity and must then record a full tree
+    state.update(live=set(range(n)), problems=[], last=-inf, md=inf)
+    tree = hier.HierarchicalTree(model)
+    res = core.call(tree.fit, data)
+    acc.trans()
+    acc.valid()
+    finite = all(T[r][c] != inf for r in range(n) for c in range(r + 1, n))
+    why = repr(res) if isinstance(res, core.Exc) else (state['problems'][0] if state['problems'] else None)
+    if why is None and finite and len(tree.linkage) != n - 1:
+        why = 'tree over a model fitted before with max_dist=%r records %d merges, expected n-1 = %d' % (m2, len(tree.linkage), n - 1)
+    if why:
+        acc.violation('real_history', 'HierarchicalTree.fit', 'c' if use_c else 'py', {'what': 'real_history', 'n': n, 'step': 2, 'max_dist_finite': False},
+                      dict(case, step='tree'), 'single rooted tree with n-1 merges', why)
+
+
 def universe(tier):
     thorough = tier == 'thorough'
     for n in (2, 3, 4):
@@ -266,6 +321,14 @@ def worker(acc, shard, nshards, tier, seed):
             for use_c in (False, True):
                 check_real(acc, np, hier, dtw, coll, use_c)
             acc.case('real-n%d' % n, nontrivial=len(set(coll)) < n or n > 2)
+            if n >= 3 and (idx // nshards) % (1 if tier == 'thorough' else 3) == 0:
+                # thresholds: in the gaps between the distinct pair distances, exactly on a pair distance (dyadic: exact), below and above all
+                ds = sorted(set(oracles.dtw_ref(coll[r], coll[c]) for r in range(n) for c in range(r + 1, n)))
+                ths = [inf] + [(a + b) / 2.0 for a, b in zip(ds, ds[1:])] + [d for d in ds if d > 0 and (d * 2).is_integer()][:2] + [ds[0] / 2.0 if ds[0] > 0 else 0.25]
+                for m1, m2 in itertools.permutations(ths[:4], 2):
+                    for use_c in (False, True):
+                        check_real_history(acc, np, hier, dtw, coll, use_c, m1, m2)
+                    acc.case('real-history-n%d' % n, nontrivial=True)
 
 
 def run(ctx):
@@ -277,7 +340,7 @@ def run(ctx):
         rule='every upper-triangular distance table for n = 2..4 over {1,2,3,inf} and n = 5 over {1,2,inf}%s x max_dist x {no hook, weight hook, order hook, both}; every merge transition is '
              'monitored through merge_hook; HierarchicalTree and repeated fits for the small tables; LinkageTree vs scipy for finite tables; real dtw.distance_matrix (Python and C) on all '
              'collections of 2..4 short series; non-trivial = ties, an infinite entry or at least two merges' % (' and n = 6 over {1,inf}' if ctx.thorough else ''),
-        bounds={'synthetic': 'n<=4: 4^(n(n-1)/2) tables x 4 max_dist x 4 hook sets; n=5: 3^10 tables x 2 x 2', 'real': 'series over a 2-letter alphabet with lengths 1..2'},
+        bounds={'synthetic': 'n<=4: 4^(n(n-1)/2) tables x 4 max_dist x 4 hook sets; n=5: 3^10 tables x 2 x 2', 'real': 'series over a 2-letter alphabet with lengths 1..2; histories: fit with max_dist m1, set max_dist m2, fit again, wrap in HierarchicalTree (all ordered pairs of up to 4 thresholds: inf, gaps, exact pair distances)'},
         assumptions=['monitor invariants are exactly those of C15: two live prototypes, distance = current minimum over live pairs, non-decreasing, <= max_dist, partition keyed by contained prototypes, '
                      'no two remaining prototypes within max_dist', 'with infinite entries only forest well-formedness of the tree is demanded (C15 does not define merging at infinite distance)',
                      'tie-breaking order and which index stays prototype are not prescribed by C15 and are not compared with a reference run'],
